@@ -95,7 +95,7 @@ func revisionCopies(r *Report, p *Program, rule string) {
 		return
 	}
 	n := 0
-	for _, b := range f.Blocks {
+	for _, b := range engine.BlocksInl(f) {
 		for _, in := range b.Instrs {
 			st, ok := in.(*ssa.Store)
 			if !ok || !strings.HasSuffix(E(st.Addr), "parentRevision>.revision") {
